@@ -87,7 +87,12 @@ func storeRule(c *core.Ctx, fn *core.Fn, key string, params []string, family *re
 			unknown = append(unknown, "op-assignment")
 			continue
 		}
-		if strings.TrimPrefix(r.role(st.Site, st.LHS.X), "*") != "d" {
+		switch base := strings.TrimPrefix(r.role(st.Site, st.LHS.X), "*"); {
+		case base == "d":
+		case unknownRole(base):
+			unknown = append(unknown, "a store to the obj of "+base)
+			continue
+		default:
 			continue // the obj of another adaptor object
 		}
 		role := r.role(st.Site, st.RHS)
@@ -322,6 +327,7 @@ func converterRules(c *core.Ctx) {
 			continue
 		}
 		r := newRoler(c, fn, outsideRdb)
+		r.allocID = true // the object under construction is followed by identity into helpers that fill it
 		r.nameParams("e")
 		var results []map[string]string
 		known := true
@@ -451,8 +457,14 @@ func fieldRoles(r *roler, s flow.Site, x ast.Expr, st *types.Struct, d int) (map
 			}
 			return false
 		}) {
-			base, ok := ast.Unparen(sto.LHS.X).(*ast.Ident)
-			if !ok || sto.G != s.G || core.ObjOf(s.G.Info, base) != obj {
+			if sto.G != s.G {
+				// a helper that fills the object through a pointer parameter: the same object
+				// iff the base of the store resolves to the same allocation
+				self := r.role(s, v)
+				if unknownRole(self) || !strings.Contains(self, "@") || strings.TrimPrefix(r.role(sto.Site, sto.LHS.X), "*") != self {
+					continue
+				}
+			} else if base, ok := ast.Unparen(sto.LHS.X).(*ast.Ident); !ok || core.ObjOf(s.G.Info, base) != obj {
 				continue
 			}
 			if !sto.Plain() {
